@@ -260,6 +260,14 @@ func (c *Ctx) Fn(spec string) *ssa.Function {
 	if os.Getenv("LEMOLINT_ANCHORS") != "" {
 		fmt.Fprintf(os.Stderr, "ANCHOR-FN %s\n", spec)
 	}
+	// a private function of the reference tree that no longer exists was inlined into (or renamed inside) its caller: when the reference
+	// tree has exactly one caller for it, the rules written for its body are evaluated on that caller
+	if !strings.Contains(spec, "$") && !c.specExists(spec) {
+		if cs := RefCallers[spec]; len(cs) == 1 && c.specExists(cs[0]) {
+			c.Note("anchor %s no longer exists; its rules are evaluated on its only reference caller %s", spec, cs[0])
+			spec = cs[0]
+		}
+	}
 	base := spec
 	var anon []string
 	if i := strings.Index(spec, "$"); i >= 0 {
@@ -371,4 +379,103 @@ func SortedKeys(m map[string]bool) []string {
 	}
 	sort.Strings(ks)
 	return ks
+}
+
+// RefCallers: private function spec -> specs of its static callers in the reference tree (reference/callers.txt).
+var RefCallers = map[string][]string{}
+
+// specExists: does "pkg.func" / "pkg.Type.method" resolve in the loaded program (without failing the anchor)?
+func (c *Ctx) specExists(spec string) bool {
+	slash := strings.LastIndex(spec, "/")
+	parts := strings.Split(spec[slash+1:], ".")
+	pkgOf := func(rel string) *types.Package {
+		if pk := c.ByPath[rel]; pk != nil {
+			return pk.Types
+		}
+		return nil
+	}
+	switch len(parts) {
+	case 2:
+		p := pkgOf(spec[:slash+1] + parts[0])
+		if p == nil {
+			return false
+		}
+		_, ok := p.Scope().Lookup(parts[1]).(*types.Func)
+		return ok
+	case 3:
+		p := pkgOf(spec[:slash+1] + parts[0])
+		if p == nil {
+			return false
+		}
+		tn, ok := p.Scope().Lookup(parts[1]).(*types.TypeName)
+		if !ok {
+			return false
+		}
+		obj, _, _ := types.LookupFieldOrMethod(types.NewPointer(tn.Type()), true, p, parts[2])
+		_, isF := obj.(*types.Func)
+		return isF
+	}
+	return false
+}
+
+// PrivateCallers lists "<spec>\t<caller spec>" for every unexported repository function and each of its static callers.
+func PrivateCallers(p *Program) []string {
+	specOf := func(fn *ssa.Function) string {
+		fn = Outer(fn)
+		rel := RelPkg(fn)
+		if fn.Signature.Recv() != nil {
+			t := fn.Signature.Recv().Type()
+			if pt, ok := t.(*types.Pointer); ok {
+				t = pt.Elem()
+			}
+			if n, ok := t.(*types.Named); ok {
+				return rel + "." + n.Obj().Name() + "." + fn.Name()
+			}
+		}
+		return rel + "." + fn.Name()
+	}
+	seen := map[string]bool{}
+	var out []string
+	for _, fn := range p.SrcFuncs {
+		for _, b := range fn.Blocks {
+			for _, in := range b.Instrs {
+				ci, ok := in.(ssa.CallInstruction)
+				if !ok {
+					continue
+				}
+				callee := ci.Common().StaticCallee()
+				if callee == nil || !InRepo(callee) || callee.Parent() != nil || callee.Synthetic != "" {
+					continue
+				}
+				o, _ := callee.Object().(*types.Func)
+				if o == nil || o.Exported() {
+					continue
+				}
+				caller := Outer(fn)
+				if strings.HasSuffix(p.Fset.Position(caller.Pos()).Filename, "_test.go") || caller == callee {
+					continue
+				}
+				l := specOf(callee) + "\t" + specOf(caller)
+				if !seen[l] {
+					seen[l] = true
+					out = append(out, l)
+				}
+			}
+		}
+	}
+	sort.Strings(out)
+	return out
+}
+
+// MethodOpt is Method for a private method that may have been inlined away: it returns nil (instead of failing the anchor) when the
+// method is gone and the reference tree knows exactly one caller of it that still exists.
+func (c *Ctx) MethodOpt(typeSpec, name string) *types.Func {
+	spec := typeSpec + "." + name
+	if !c.specExists(spec) {
+		if cs := RefCallers[spec]; len(cs) == 1 && c.specExists(cs[0]) {
+			c.Note("method %s no longer exists (inlined into %s)", spec, cs[0])
+			return nil
+		}
+	}
+	return c.Method(typeSpec, name)
 }
